@@ -2,6 +2,7 @@ package lit
 
 import (
 	"bytes"
+	_ "embed"
 	"fmt"
 	"go/ast"
 	"go/constant"
@@ -9,7 +10,11 @@ import (
 	"go/token"
 	"go/types"
 	"math"
+	"os"
+	"os/exec"
+	"path/filepath"
 	"reflect"
+	"regexp"
 	"sort"
 	"strings"
 	"testing"
@@ -21,6 +26,7 @@ import (
 	"pgregory.net/rapid"
 
 	"vt/internal/ev"
+	"vt/lit/dumpval"
 )
 
 // ---- C10: value literals evaluate back to the value they were rendered from ----
@@ -694,7 +700,7 @@ func oracleC10(c c10Case) error {
 	info := &types.Info{Types: map[ast.Expr]types.TypeAndValue{}}
 	var terrs []string
 	conf := types.Config{Importer: mapImporter(f.pkgs), Error: func(err error) {
-		if !strings.Contains(err.Error(), "imported and not used") && !strings.Contains(err.Error(), "and not used") {
+		if !(strings.Contains(err.Error(), "not used") && strings.Contains(err.Error(), "hx_")) {
 			terrs = append(terrs, err.Error())
 		}
 	}}
@@ -804,6 +810,143 @@ func c10NonTrivial(c c10Case) bool {
 	return false
 }
 
+// ---- compiler cross-check: batches of literals compiled and run by the real toolchain ----
+
+//go:embed dumpval/dump.go
+var dumpSource string
+
+type c10Batch struct {
+	Cases []c10Case `json:"cases"`
+}
+
+func genC10Batch(t *rapid.T) c10Batch {
+	var b c10Batch
+	n := rapid.IntRange(40, 120).Draw(t, "batchsize")
+	for i := 0; i < n; i++ {
+		c := genC10(t)
+		// the program lives in its own package: own-package targets are covered by the in-process sub
+		if strings.HasPrefix(c.Target, "own:") {
+			c.Target = "other"
+		}
+		b.Cases = append(b.Cases, c)
+	}
+	return b
+}
+
+func copyTree(src, dst string) error {
+	return filepath.Walk(src, func(p string, info os.FileInfo, err error) error {
+		if err != nil {
+			return err
+		}
+		rel, _ := filepath.Rel(src, p)
+		if info.IsDir() {
+			return os.MkdirAll(filepath.Join(dst, rel), 0o755)
+		}
+		b, err := os.ReadFile(p)
+		if err != nil {
+			return err
+		}
+		return os.WriteFile(filepath.Join(dst, rel), b, 0o644)
+	})
+}
+
+func oracleC10Batch(b c10Batch) error {
+	dir, err := os.MkdirTemp("", "vtc10")
+	if err != nil {
+		panic("harness: " + err.Error())
+	}
+	defer os.RemoveAll(dir)
+	// a module named vt with the fixture packages copied in (they are internal to module vt)
+	if err := os.WriteFile(filepath.Join(dir, "go.mod"), []byte("module vt\n\ngo 1.24\n"), 0o644); err != nil {
+		panic("harness: " + err.Error())
+	}
+	if err := copyTree(filepath.Join(ev.Root(), "harness", "internal", "fx"), filepath.Join(dir, "internal", "fx")); err != nil {
+		panic("harness: " + err.Error())
+	}
+	_ = os.MkdirAll(filepath.Join(dir, "internal", "dumpval"), 0o755)
+	if err := os.WriteFile(filepath.Join(dir, "internal", "dumpval", "dump.go"), []byte(dumpSource), 0o644); err != nil {
+		panic("harness: " + err.Error())
+	}
+	var prog strings.Builder
+	prog.WriteString("package main\n\nimport (\n\t\"fmt\"\n\t\"reflect\"\n\n\t\"vt/internal/dumpval\"\n")
+	for k, p := range fxPaths {
+		fmt.Fprintf(&prog, "\t%s %q\n", fxAlias[k], p)
+	}
+	// every case renders with its own tracker; import names are made unique per case by a prefix
+	var decls strings.Builder
+	var mainBody strings.Builder
+	want := make([]string, len(b.Cases))
+	for i, c := range b.Cases {
+		rt, ok := c.T.toReflect()
+		if !ok {
+			panic("harness: value type without reflect form")
+		}
+		orig := build(rt, c.V)
+		want[i] = dumpval.Dump(orig)
+		text, tracker, err := renderValue(c, orig, "example.com/probe/target")
+		if err != nil {
+			return fmt.Errorf("case %d: %w", i, err)
+		}
+		// rewrite the tracker's import names to per-case unique aliases
+		imports := tracker.Imports()
+		paths := make([]string, 0, len(imports))
+		for p := range imports {
+			paths = append(paths, p)
+		}
+		sort.Slice(paths, func(x, y int) bool { return len(imports[paths[x]]) > len(imports[paths[y]]) })
+		for _, p := range paths {
+			if _, isFx := map[string]bool{fxPaths["alpha"]: true, fxPaths["beta"]: true, fxPaths["gamma"]: true}[p]; !isFx {
+				continue
+			}
+			alias := fmt.Sprintf("c%d_%s", i, imports[p])
+			fmt.Fprintf(&prog, "\t%s %q\n", alias, p)
+			text = qualifierRe(imports[p]).ReplaceAllString(text, "${1}"+alias+".")
+		}
+		fmt.Fprintf(&decls, "var v%d %s = %s\n\n", i, c.T.spell(aliasQual), text)
+		fmt.Fprintf(&mainBody, "\tfmt.Println(%d, dumpval.Dump(reflect.ValueOf(&v%d).Elem()))\n", i, i)
+	}
+	prog.WriteString(")\n\nvar _ = reflect.ValueOf\n\nvar (\n\t_ hx_alpha.Int\n\t_ hx_beta.Kind\n\t_ hx_gamma.Level\n)\n\n")
+	prog.WriteString(decls.String())
+	prog.WriteString("func main() {\n" + mainBody.String() + "}\n")
+	_ = os.MkdirAll(filepath.Join(dir, "cmd", "probe"), 0o755)
+	if err := os.WriteFile(filepath.Join(dir, "cmd", "probe", "main.go"), []byte(prog.String()), 0o644); err != nil {
+		panic("harness: " + err.Error())
+	}
+	cmd := exec.Command("go", "run", "./cmd/probe")
+	cmd.Dir = dir
+	out, err := cmd.CombinedOutput()
+	if err != nil {
+		o := string(out)
+		if strings.Contains(o, "imported and not used") && !strings.Contains(o, "cannot use") {
+			panic("harness: unused import in the generated program: " + clipS(o, 800))
+		}
+		// find the first case named by a compiler error (v<i> or the line of its declaration)
+		return fmt.Errorf("the Go compiler rejects a program made of %d rendered literals: %s", len(b.Cases), clipS(o, 1500))
+	}
+	lines := strings.Split(strings.TrimSpace(string(out)), "\n")
+	if len(lines) != len(b.Cases) {
+		panic(fmt.Sprintf("harness: program printed %d lines for %d cases", len(lines), len(b.Cases)))
+	}
+	for i, l := range lines {
+		got := strings.TrimPrefix(l, fmt.Sprintf("%d ", i))
+		if got != want[i] {
+			return fmt.Errorf("case %d (a %s): compiled and run, the literal evaluates to %s, the original is %s", i, b.Cases[i].T.key(), clipS(got, 600), clipS(want[i], 600))
+		}
+	}
+	return nil
+}
+
+func qualifierRe(name string) *regexp.Regexp {
+	return regexp.MustCompile(`(^|[^A-Za-z0-9_.])` + regexp.QuoteMeta(name) + `\.`)
+}
+
+func clipS(s string, n int) string {
+	if len(s) > n {
+		return s[:n] + "...(clipped)"
+	}
+	return s
+}
+
 func TestC10(t *testing.T) {
 	r := ev.Begin(t, ev.Meta{
 		ID:    "C10",
@@ -825,6 +968,12 @@ func TestC10(t *testing.T) {
 	ev.Search(r, ev.Sub[c10Case]{
 		Name: "values", Gen: genC10, Oracle: oracleC10, NonTrivial: c10NonTrivial, Classes: c10Features,
 		Budget: ev.Budget{Quick: 15000, Thorough: 150000}, MinNonTrivial: 0.3,
+	})
+	// the real compiler as second judge (also validates the in-process evaluator): one batch in quick, several in thorough
+	ev.Search(r, ev.Sub[c10Batch]{
+		Name: "compiled", Gen: genC10Batch, Oracle: oracleC10Batch,
+		NonTrivial: func(b c10Batch) bool { return len(b.Cases) >= 40 },
+		Budget:     ev.Budget{Quick: 1, Thorough: 6}, ShrinkTime: 60e9,
 	})
 }
 
